@@ -31,8 +31,9 @@ ORDER_ONLY = {"list", "sorted", "tuple"}
 
 
 class SymEval:
-    def __init__(self, fm: FuncModel, pol_tables: bool = False):
+    def __init__(self, fm: FuncModel, pol_tables: bool = False, assume: dict | None = None):
         self.pol_tables = pol_tables
+        self.assume = assume or {}     # token of a Boolean expression -> assumed truth value (case analysis)
         self.fm = fm
         self.f = fm.f
         self.params = set(fm.f.params())
@@ -119,8 +120,31 @@ class SymEval:
             return "(" + ",".join(V(x) for x in e.elts) + ")"
         if isinstance(e, ast.List):
             return "[" + ",".join(V(x) for x in e.elts) + "]"
-        if isinstance(e, ast.Dict) and not e.keys:
-            return "{}"
+        if isinstance(e, ast.Set):
+            return "{" + ",".join(V(x) for x in e.elts) + "}"
+        if isinstance(e, ast.Dict):
+            if not e.keys:
+                return "{}"
+            if all(k is not None for k in e.keys):
+                return "{" + ",".join(f"{V(k)}:{V(v)}" for k, v in zip(e.keys, e.values)) + "}"
+        if isinstance(e, ast.DictComp) and len(e.generators) == 1:
+            b2 = dict(bound)
+            g = e.generators[0]
+            it = self.val(g.iter, at, b2, depth + 1)
+            self._bind(g.target, it, b2)
+            if it.startswith("items(") and _balanced(it, 5) == len(it):
+                it = it[6:-1]
+            tok = f"dmap({self.val(e.key, at, b2, depth + 1)}:{self.val(e.value, at, b2, depth + 1)},{it})"
+            return tok + ("|if " + " and ".join(text(c) for c in g.ifs) if g.ifs else "")
+        if isinstance(e, ast.IfExp):
+            t = self.truth(e.test, at, bound, depth + 1)
+            if t is True:
+                return V(e.body)
+            if t is False:
+                return V(e.orelse)
+            return f"ite({V(e.test)},{V(e.body)},{V(e.orelse)})"
+        if isinstance(e, ast.NamedExpr):
+            return V(e.value)
         if isinstance(e, ast.Slice):
             return f"{V(e.lower) if e.lower else ''}:{V(e.upper) if e.upper else ''}"
         if isinstance(e, ast.UnaryOp):
@@ -128,6 +152,28 @@ class SymEval:
         if isinstance(e, ast.BinOp):
             return f"({V(e.left)} {type(e.op).__name__} {V(e.right)})"
         return text(e)
+
+    def truth(self, e: ast.AST, at, bound=None, depth: int = 0):
+        """True / False if the assumptions decide the Boolean expression, else None."""
+        if isinstance(e, ast.Constant):
+            return bool(e.value)
+        if isinstance(e, ast.UnaryOp) and isinstance(e.op, ast.Not):
+            t = self.truth(e.operand, at, bound, depth + 1)
+            return None if t is None else not t
+        if isinstance(e, ast.BoolOp):
+            ts = [self.truth(v, at, bound, depth + 1) for v in e.values]
+            if isinstance(e.op, ast.And):
+                return False if False in ts else (True if all(t is True for t in ts) else None)
+            return True if True in ts else (False if all(t is False for t in ts) else None)
+        if isinstance(e, ast.Name) and depth < 8 and not (bound and e.id in bound):
+            x, at2 = self.fm.deref_at(e, at)
+            if x is not e:
+                return self.truth(x, at2, bound, depth + 1)
+        return self.assume.get(self.val(e, at, bound, depth + 1))
+
+    def hypothesis(self):
+        """The case assumptions as a formula over the atoms that conditions use."""
+        return logic.And(*[logic.B("T:" + k) if v else logic.Not(logic.B("T:" + k)) for k, v in self.assume.items()])
 
     def _bind(self, target: ast.AST, it_tok: str, env: dict) -> None:
         if isinstance(target, ast.Name):
@@ -201,6 +247,11 @@ class SymEval:
         """Contributions to the collection `name`: (cfg node, element token, extra condition or None)."""
         out = []
         from ..repo import own_walk
+        for st in own_walk(self.f.node):
+            if isinstance(st, ast.Assign) and len(st.targets) == 1 and isinstance(st.targets[0], ast.Subscript) \
+                    and isinstance(st.targets[0].value, ast.Name) and st.targets[0].value.id == name:
+                cn = self.fm.cfgn(st)
+                out.append((cn, f"{self.val(st.targets[0].slice, cn)}:{self.val(st.value, cn)}", None))
         for c in own_walk(self.f.node):
             if not (isinstance(c, ast.Call) and isinstance(c.func, ast.Attribute) and isinstance(c.func.value, ast.Name)
                     and c.func.value.id == name and c.args):
@@ -221,6 +272,31 @@ class SymEval:
                 else:
                     out.append((cn, _norm(f"elem({self.val(a, cn)})"), None))
         return out
+
+    def collection(self, e: ast.AST, at):
+        """Uniform view of how a list / set / dict value is built: [(element token -- `key:value` for dicts --, condition)],
+        for a comprehension as well as for an empty collection that is filled by statements."""
+        x, at2 = self.fm.deref_at(e, at)
+        if isinstance(x, (ast.ListComp, ast.SetComp, ast.GeneratorExp, ast.DictComp)) and len(x.generators) == 1:
+            g = x.generators[0]
+            b2: dict = {}
+            it = self.val(g.iter, at2)
+            self._bind(g.target, it, b2)
+            for c in g.ifs:
+                for w in ast.walk(c):
+                    if isinstance(w, ast.NamedExpr) and isinstance(w.target, ast.Name):
+                        b2[w.target.id] = self.val(w.value, at2, b2)
+            tr = logic.Translator(lambda q, b2=b2, at2=at2: self.val(q, at2, b2))
+            cond = logic.And(*[tr.f(c) for c in g.ifs])
+            if isinstance(x, ast.DictComp):
+                el = f"{self.val(x.key, at2, b2)}:{self.val(x.value, at2, b2)}"
+            else:
+                el = self.val(x.elt, at2, b2)
+            return [(el, cond)]
+        tok = self.val(e, at)
+        if tok in self.accs:
+            return [(el, c) for el, c, _ in self.contributions(tok)]
+        return None
 
     def contributions(self, tok: str):
         """[(element token, condition)] of an accumulator token."""
